@@ -12,8 +12,8 @@ partial def loop (h : IO.FS.Stream) (out : IO.FS.Stream) (f : String → String)
     loop h out f
 
 def dispatch : String → Option (String → String)
-  | "C01" => some AbiGen.runLine
-  | "C02" => some CppGen.runLine
+  | "C01" => some (fun l => if l.startsWith "(c01wire" then Wire.runLine l else AbiGen.runLine l)
+  | "C02" => some (fun l => if l.startsWith "(c02cpp" then CppMethod.runLine l else CppGen.runLine l)
   | "C03" => some Own.runLine
   | "C04" => some Lifetimes.runLine
   | "C05" => some Lower.runLine
